@@ -547,6 +547,22 @@ func (w *World) registerIntrinsics() {
 		}
 		return e.mkSlice(types.Typ[types.Int], vs)
 	}
+	I["(*regexp.Regexp).FindStringSubmatch"] = func(e *Exec, fn *ssa.Function, a []Value) Value {
+		re := e.load(a[0].(*Pointer)).(*OpaqueVal).data.(*compiledRegex)
+		sv, ok := str(a[1]).strVal()
+		if !ok {
+			e.unsupported("FindStringSubmatch on a symbolic string")
+		}
+		ms := re.native.FindStringSubmatch(sv)
+		if ms == nil {
+			return &SliceVal{isNil: true}
+		}
+		var vs []Value
+		for _, m := range ms {
+			vs = append(vs, mkStr(m))
+		}
+		return e.mkSlice(types.Typ[types.String], vs)
+	}
 	I["(*regexp.Regexp).NumSubexp"] = func(e *Exec, fn *ssa.Function, a []Value) Value {
 		re := e.load(a[0].(*Pointer)).(*OpaqueVal).data.(*compiledRegex)
 		return mkInt(int64(re.native.NumSubexp()))
